@@ -18,6 +18,7 @@ CONSTANTS MaxEntries,  \* entries per namespace
           UseBlobs,    \* which contents (subset of MCAllBlobs)
           InPlace,     \* BOOLEAN: include modify_file_in_place (enabled after a reopen)
           Boot,        \* BOOLEAN: include add_eltorito / rm_eltorito / links to the boot catalog
+          RefuseByName, \* BOOLEAN: refused representatives per name, not only per (action, reason)
           Life,        \* BOOLEAN: lifecycle steps - close(), new() again on the same object, calls on a closed object
           CfgIds,      \* which configurations (indices into Cfgs)
           Modes,       \* consistency modes of the object: subset of {"lazy", "always"}
@@ -139,6 +140,14 @@ Accept == /\ st.phase = "live" /\ Len(h) <= MaxLen
           /\ UNCHANGED <<nref, nsched>>
 
 \* a refused edit: one representative per (action name, reason)
+\* one representative refused call per (action, reason) - and, when the names are what a table is
+\* about (RefuseByName), per last name of each path the call mentions
+LastOf(p) == IF p = NoPath \/ p = <<>> THEN "-" ELSE p[Len(p)]
+RefKey(a) ==
+    IF ~RefuseByName THEN <<>>
+    ELSE <<IF "iso" \in DOMAIN a THEN LastOf(a.iso) ELSE "-", IF "jol" \in DOMAIN a THEN LastOf(a.jol) ELSE "-",
+           IF "udf" \in DOMAIN a THEN LastOf(a.udf) ELSE "-", IF "new" \in DOMAIN a THEN LastOf(a.new) ELSE "-",
+           IF "p" \in DOMAIN a THEN LastOf(a.p) ELSE "-">>
 LifeCands(s) == IF Life THEN {[a |-> "New", cfg |-> Cfgs[c], mode |-> s.mode] : c \in CfgIds} \cup {[a |-> "Close"]}
                 ELSE {}
 Reject == /\ (st.phase = "live" \/ (Life /\ st.phase = "uninit" /\ h # <<>>)) /\ Len(h) <= MaxLen /\ nref < MaxRefuse
@@ -146,8 +155,8 @@ Reject == /\ (st.phase = "live" \/ (Life /\ st.phase = "uninit" /\ h # <<>>)) /\
           /\ \E cands \in {CandsOf(st) \cup LifeCands(st)} :
              \E outc \in {[a \in cands |-> Step(st, a)]} :
              \E refused \in {{a \in cands : outc[a].out = "refuse"}} :
-             \E k \in {<<a.a, outc[a].why>> : a \in refused} :
-                  LET a == CHOOSE x \in refused : x.a = k[1] /\ outc[x].why = k[2] IN
+             \E k \in {<<a.a, outc[a].why, RefKey(a)>> : a \in refused} :
+                  LET a == CHOOSE x \in refused : x.a = k[1] /\ outc[x].why = k[2] /\ RefKey(x) = k[3] IN
                   /\ st' = st
                   /\ h' = Append(h, a @@ [rej |-> k[2]])     \* (the marker is dropped by the harness)
           /\ nref' = nref + 1
